@@ -305,6 +305,34 @@ theorem state_visible_run (cfg : Cfg) (cbs : List Nat) (evs : List TEv) (hacc : 
       simp only at this
       rw [hvis] at this; simp at this
 
+/-- the monitor `attemptsAtomicB` is sound for the hypothesis `AttemptsAtomic` of `reconnect_rate_limited`: a run on which
+the monitor says true has atomic attempts -/
+theorem attemptsAtomicB_sound (log : Log) (h : attemptsAtomicB log = true) : AttemptsAtomic log := by
+  intro p j c hpj hp ⟨ok, od, hj⟩ hnochk m hpm hmj
+  have hjl : j < log.length := evAt_lt_of_some hj
+  simp only [attemptsAtomicB, allBelow, List.all_eq_true, List.mem_range] at h
+  have h1 := h j hjl
+  rw [hj] at h1
+  simp only [List.all_eq_true, List.mem_range] at h1
+  have h2 := h1 p hpj
+  simp only [hp, beq_self_eq_true, Bool.not_true, Bool.false_or, Bool.or_eq_true, Bool.not_eq_eq_eq_not] at h2
+  rcases h2 with h2 | h2
+  · exfalso
+    simp only [allBetween, Bool.not_eq_eq_eq_not, Bool.not_true] at h2
+    have : ((List.range j).all fun m => !decide (p < m) || !isChk c (evAt log m)) = true := by
+      simp only [List.all_eq_true, List.mem_range, Bool.or_eq_true, Bool.not_eq_eq_eq_not, Bool.not_true,
+        decide_eq_false_iff_not]
+      intro x hx
+      by_cases hpx : p < x
+      · right; exact hnochk x hpx hx
+      · left; exact hpx
+    rw [this] at h2; simp at h2
+  · simp only [allBetween, List.all_eq_true, List.mem_range, Bool.or_eq_true, Bool.not_eq_eq_eq_not, Bool.not_true,
+      decide_eq_false_iff_not] at h2
+    rcases h2 m hmj with h3 | h3
+    · exact absurd hpm h3
+    · simpa using h3
+
 /-- Reconnect rate limit — for EVERY accepted run in which attempts do not interleave (`AttemptsAtomic`, the effect of
 `accessLock`; monitored on the implementation): a connect attempt made on behalf of a communicate call comes at least
 the reconnect interval after EVERY earlier attempt, of whatever origin (up to the clock slack). -/
